@@ -206,13 +206,13 @@ def build(ctx):
                 for (n, b) in chunk:
                     for arm in range(9):
                         hs.append(P.Harness("flat_%s_%s_arm%d_%s_cxx%s" % (n, b, arm, mode, std), flat_harness(u, n, b, maxsz, maxbl, depth), [u], unwind=max(maxsz, depth) + 2,
-                                            backends=["minisat", "z3"], cap=ctx.q(100, 900), defines=["VERIF_WHICH=%d" % arm],
+                                            backends=["minisat", "z3"], cap=ctx.q(300, 900), defines=["VERIF_WHICH=%d" % arm],
                                             desc="flat group numInGroup=%s blockLength=%s, arm %d of {0 iterator op sequences, 1 comparisons+distance, 2 it[n], 3 (it+n)-n, 4 begin/end/size/size_bytes, 5 operator[]/front/back, 6 range-for, 7 resize frame, 8 clear frame}" % (n, b, arm),
                                             bounds={"size": "0..%d" % maxsz, "blockLength": "0..%d" % maxbl, "depth": depth, "std": "c++" + std, "build": mode}))
             un = ctx.lower("c12n", cpp([], list(U)), std=std, mode=mode, incs=[inc])
             for n in U:
                 for arm in range(4):
-                    hs.append(P.Harness("nested_%s_arm%d_%s_cxx%s" % (n, arm, mode, std), nested_harness(un, n, maxsz), [un], unwind=maxsz + 3, backends=["minisat", "z3"], cap=ctx.q(100, 900),
+                    hs.append(P.Harness("nested_%s_arm%d_%s_cxx%s" % (n, arm, mode, std), nested_harness(un, n, maxsz), [un], unwind=maxsz + 3, backends=["minisat", "z3"], cap=ctx.q(300, 900),
                                         defines=["VERIF_WHICH=%d" % arm],
                                         desc="nested group (%s/%s dims, entries with a <data> member), arm %d of {0 forward iteration addresses, 1 size/empty/front/size_bytes, 2 resize frame, 3 clear frame}" % (n, n, arm),
                                         bounds={"size": "0..%d" % maxsz, "blockLength": "1..3", "data_len": "0..2", "std": "c++" + std, "build": mode}))
